@@ -47,7 +47,7 @@ def claims(pid, op, kind, wf):
     if pid == "C11":
         return op == "clone" and kind == "struct"
     if pid == "C12":
-        return kind == "uid"
+        return kind == "uid" or op == "decoded"
     return False
 
 
@@ -168,13 +168,20 @@ def run(pid, tier, seed, replay=None):
     rbxv(["dom-drive", "--seed", seed, "--episodes", episodes, "--steps", steps, "--maxref", 20, "--slots", 1],
          stdout_path=trace_c)
 
+    traces = [trace_b, trace_c]
+    if pid == "C12":
+        # reader paths: DOMs produced by the binary and XML readers from files with duplicate UniqueIds
+        trace_d = os.path.join(OUT, "%s_decoded_trace.ndjson" % pid)
+        rbxv(["dom-decoded", "--seed", seed, "--episodes", 80 if quick else 3000, "--steps", 12, "--maxref", 20],
+             stdout_path=trace_d)
+        traces.append(trace_d)
     cfg = os.path.join(OUT, "WeakDomTrace.cfg")
     write_cfg(cfg, "TraceSpec", dict(MaxRef=20, NumDoms=2, NumSlots=1),
               invariants="WellFormed UidDistinct UidSetExact UidSeen")
     total_events = total_eps = 0
     nontrivial = set()
     others = 0
-    for trace in (trace_b, trace_c):
+    for trace in traces:
         res = validate_trace("WeakDomTrace", cfg, trace)
         total_events += res["events"]
         total_eps += res["episodes"]
@@ -182,7 +189,10 @@ def run(pid, tier, seed, replay=None):
             rep.violation("trace-invariant|%s" % text, {"trace": shard, "tlc": tail}, text)
         for shard, line, ep, op, kind, wf in res["mismatches"]:
             if claims(pid, op, kind, wf):
-                rep.violation("mismatch|%s|%s|%s" % (op, kind, wf),
+                opsig = op
+                if op == "decoded":
+                    opsig = "decoded-" + (ep.split(":")[1] if ":" in ep else "?")
+                rep.violation("mismatch|%s|%s|%s" % (opsig, kind, wf),
                               lambda shard=shard, ep=ep, op=op, kind=kind, wf=wf: {
                                   "episode": ep, "rejected_op": op, "kind": kind, "wellformed": wf,
                                   "events": [json.loads(x) for x in episode_lines(shard, ep)][:60]},
@@ -209,7 +219,7 @@ def run(pid, tier, seed, replay=None):
     if others:
         log("[%s] note: %d rejected trace lines belong to a sibling property's check" % (pid, others))
 
-    for p in (ops_path, trace_b, trace_c):
+    for p in [ops_path] + traces:
         for q in [p] + [p + ".shard%d" % i for i in range(32)]:
             if os.path.exists(q) and not rep.violations:
                 os.remove(q)
